@@ -51,6 +51,14 @@ def pts(rng, n, scale=3.0):
 def generate(rng, tier):
     n_cases = 120 if tier == "quick" else 1500
     cases = [{"op": "iso", "f": "f64", "sigma": fb(2.0), "from": [fb(0.0)], "to": [fb(0.0)], "seed": "1", "kind": "witness-D8"}]
+    # high dimension x std far from one (products like (sqrt(2 pi) std)^d leave the f32 range although the log-density does not)
+    for f in ["f32", "f64"]:
+        for d, sigma in [(32, 900.0), (24, 900.0), (13, 500.0), (32, 30.0), (32, 0.002), (20, 0.002), (32, 0.02), (32, 1000.0), (32, 0.001)]:
+            sg = rd(f, sigma)
+            frm = [rd(f, rng.uniform(-3, 3)) for _ in range(d)]
+            to = [rd(f, x + sg * rng.gauss(0, 1)) for x in frm]
+            cases.append({"op": "iso", "f": f, "sigma": fb(sg), "from": [fb(x) for x in frm], "to": [fb(x) for x in to],
+                          "seed": str(rng.getrandbits(64)), "kind": "extreme-d-sigma"})
     while len(cases) < n_cases:
         f = rng.choice(["f32", "f64"])
         op = rng.choice(["gauss2d", "diffable", "diffable", "rosen2", "rosennd", "iso", "iso"])
@@ -270,6 +278,24 @@ def oracle(case, out):
             sc, _ = scale_gauss(case, k)
             if abs(diff - ref) > float(REL * sc) * 2:
                 return "Gaussian2D normalised - unnormalised = %.9g, constant -ln(2 pi) - ln|det|/2 = %.9g" % (diff, ref)
+    if op in ("gauss2d", "diffable"):
+        # the documented normalised 2-D Gaussian log-density, recomputed in double precision
+        m, cv = params(case)
+        det = cv[0] * cv[3] - cv[1] * cv[2]
+        if det > 0:
+            names = ("logp",) if op == "gauss2d" else ("batch", "single")
+            for k in range(len(case["points"]) // 2):
+                x0, x1 = rd(f, bf(case["points"][2 * k])), rd(f, bf(case["points"][2 * k + 1]))
+                d0, d1 = x0 - m[0], x1 - m[1]
+                quad = (cv[3] * d0 * d0 - (cv[1] + cv[2]) * d0 * d1 + cv[0] * d1 * d1) / det
+                ref = -math.log(2 * math.pi) - 0.5 * math.log(det) - 0.5 * quad
+                sc, _ = scale_gauss(case, k)
+                for nm in names:
+                    got = bf(out[nm][k])
+                    if abs(got - ref) > float(REL * sc) * 2:
+                        return ("%s %s at (%r, %r) with mean %s, cov %s (det %r): returned %.9g, the normalised 2-D Gaussian "
+                                "log-density is %.9g" % ("Gaussian2D::logp" if op == "gauss2d" else "DiffableGaussian2D " + nm,
+                                                         f, x0, x1, m, cv, det, got, ref))
     if op in ("diffable", "rosen2"):
         for k in range(len(out["batch"])):
             a, b = bf(out["batch"][k]), bf(out["single"][k])
